@@ -165,7 +165,7 @@ def check(spec):
                         note("maximal_magnitude_when_sliding", site, abs(float(np.linalg.norm(pf)) - mu * PN[i]), 1e-4 * scaleP, k)
                     else:
                         want = -mu * PN[i] * xf / np.linalg.norm(xf)
-                        note("maximal_dissipation_when_sliding", site, float(np.linalg.norm(pf - want)), 1e-4 * scaleP, k)
+                        note("maximal_dissipation_when_sliding", site, float(np.linalg.norm(pf - want)), 1e-6 * scaleP, k)
                     sliding += 1
     for (sub, site), (err, tol, k) in worst.items():
         res.fail(sub, site, err, feats, f"worst step {k}: err={err:.3e} tol={tol:.1e} dt={dt:.2e}")
